@@ -194,7 +194,8 @@ where
                     format!("type mismatch: expected Array(Array::Integer), got {v:?}"),
                 ));
             }
-            None => {}
+            // A missing value is written as a single missing entry.
+            None => max_len = cmp::max(max_len, 1),
         }
     }
 
